@@ -146,6 +146,7 @@ func runExtractCase(carBin string, c *xfCase, base string, form int) (string, st
 	w := filepath.Join(sand, "w")
 	os.MkdirAll(filepath.Join(w, "out"), 0o755)
 	os.MkdirAll(filepath.Join(w, "sdir"), 0o755)
+	os.MkdirAll(filepath.Join(w, "out2"), 0o755)
 	os.WriteFile(filepath.Join(w, "sent"), []byte("SENTINEL"), 0o644)
 	os.WriteFile(filepath.Join(w, "sdir", "f"), []byte("SENTINEL2"), 0o644)
 	for _, p := range c.Pre {
@@ -175,6 +176,10 @@ func runExtractCase(carBin string, c *xfCase, base string, form int) (string, st
 	beforeSand := snapshotTree(sand, w)
 	cmd := exec.Command(carBin, "extract", "-f", carPath, filepath.Join(w, "out"))
 	cmd.Dir = w
+	if form == 2 { // the output directory given as "."
+		cmd = exec.Command(carBin, "extract", "-f", carPath, ".")
+		cmd.Dir = filepath.Join(w, "out")
+	}
 	outb, err := cmd.CombinedOutput()
 	after := snapshotTree(w, filepath.Join(w, "out"))
 	afterSand := snapshotTree(sand, w)
@@ -254,14 +259,14 @@ func runExtractReplay(args []string) int {
 					rep.inconclusive("bad record: " + err.Error())
 					continue
 				}
-				for form := 0; form < 2; form++ {
+				for form := 0; form < 3; form++ {
 					if form == 1 && len(c.Arch) < 2 {
 						continue
 					}
 					cls, msg, drift := runExtractCase(carBin, &c, base, form)
 					rep.eval(canon(c.Arch)+canon(c.Pre)+fmt.Sprint(form), true)
 					if cls != "" {
-						rep.violate("extract/"+cls+"/"+kindsOf(&c), fmt.Sprintf("archive [%s] (%s roots) pre %s: %s", shapeOf(c.Arch), map[int]string{0: "one", 1: "two"}[form], canon(c.Pre), msg),
+						rep.violate("extract/"+cls+"/"+kindsOf(&c), fmt.Sprintf("archive [%s] (%s roots) pre %s: %s", shapeOf(c.Arch), map[int]string{0: "one", 1: "two", 2: "one, output dir '.'"}[form], canon(c.Pre), msg),
 							map[string]any{"family": "extract", "case": c, "form": form})
 					}
 					if drift != "" {
